@@ -125,6 +125,31 @@ class Lifecycle:
         self._label_switches()
 
     # ---- select --------------------------------------------------------------------------
+    def _select_branches(self, pf_bb):
+        """Branch table of the select! whose poll_fn call is in pf_bb: per branch the root call
+        of its future (through transparent wrappers)."""
+        f = self.f
+        args = self.tr.call_args(pf_bb)
+        closure = None
+        tup = None
+        if args and args[0][0] == "agg" and args[0][1][0] == "closure":
+            closure = args[0][1][1]
+            for op in args[0][2]:
+                t = strip_refs(op)
+                if t[0] == "agg" and t[1] == ("tuple",):
+                    tup = t
+        if tup is None:
+            return closure, None
+        out = []
+        for i, el in enumerate(tup[2]):
+            root = future_root(self.tr, el)
+            kind = None
+            if root.call_bb is not None:
+                term = self.tr.call_term(root.call_bb)
+                kind = hook_of(term) or (recv_kind(f, term) and "recv_" + recv_kind(f, term))
+            out.append({"index": i, "kind": kind, "call_bb": root.call_bb, "root": root})
+        return closure, out
+
     def _find_select(self):
         b, f = self.body, self.f
         self.select_sites = []
@@ -137,38 +162,30 @@ class Lifecycle:
             self.select_sites.append(s)
         self.select = None
         self.poll_fn_bb = None
-        self.sel_branches = []      # per branch: dict(kind, call_bb, root)
-        pf = []
+        self.sel_branches = []      # branches of the main select (the one that receives from the mailbox)
+        self.select_closure = None
+        self.dsl_ok = False
+        self.all_selects = {}       # poll_fn bb -> {"branches", "closure", "dsl"}
         for blk in b.calls():
             if blk.idx in self.cfg.live and callee(blk.term) in ("std::future::poll_fn", "core::future::poll_fn") and \
                     any(m == "tokio::select" for m in f.span(blk.term["span"]).macros):
-                pf.append(blk.idx)
-        self.poll_fn_sites = pf
-        if len(self.select_sites) != 1 or len(pf) != 1:
-            self.errors.append("expected exactly one tokio::select! in the lifecycle body (sites=%d, poll_fn=%d)" % (len(self.select_sites), len(pf)))
+                closure, branches = self._select_branches(blk.idx)
+                root = f.span(blk.term["span"]).root
+                dsl = [s for s in self.select_sites if (f.span(s["callsite"]).lo, f.span(s["callsite"]).hi) == (root.lo, root.hi)]
+                self.all_selects[blk.idx] = {"branches": branches, "closure": closure, "dsl": dsl[0] if len(dsl) == 1 else None}
+        self.poll_fn_sites = sorted(self.all_selects)
+        mains = [pf for pf, s in self.all_selects.items() if s["branches"] and any(br["kind"] == "recv_mailbox" for br in s["branches"])]
+        if len(mains) != 1:
+            self.errors.append("expected exactly one tokio::select! that receives from the mailbox in the lifecycle body (found %d of %d select sites)" % (len(mains), len(self.all_selects)))
             return
-        self.select = self.select_sites[0]
-        self.poll_fn_bb = pf[0]
-        # futures tuple: closure captures -> tuple of into_future(tuple.k)
-        args = self.tr.call_args(self.poll_fn_bb)
-        self.select_closure = None
-        tup = None
-        if args and args[0][0] == "agg" and args[0][1][0] == "closure":
-            self.select_closure = args[0][1][1]
-            for op in args[0][2]:
-                t = strip_refs(op)
-                if t[0] == "agg" and t[1] == ("tuple",):
-                    tup = t
-        if tup is None:
-            self.errors.append("cannot find the futures tuple handed to the select! poll closure")
+        self.poll_fn_bb = mains[0]
+        m = self.all_selects[mains[0]]
+        self.sel_branches = m["branches"]
+        self.select_closure = m["closure"]
+        self.select = m["dsl"]
+        if self.select is None:
+            self.errors.append("cannot map the lifecycle select! onto its macro call site")
             return
-        for i, el in enumerate(tup[2]):
-            root = future_root(self.tr, el)
-            kind = None
-            if root.call_bb is not None:
-                term = self.tr.call_term(root.call_bb)
-                kind = hook_of(term) or (recv_kind(f, term) and "recv_" + recv_kind(f, term))
-            self.sel_branches.append({"index": i, "kind": kind, "call_bb": root.call_bb, "root": root})
         # DSL cross-check: the resolved root call of branch i lies in the DSL branch's future span
         dsl = self.select.get("branches", [])
         self.dsl_ok = len(dsl) == len(self.sel_branches) and "error" not in self.select
@@ -214,15 +231,18 @@ class Lifecycle:
                 return ("recv", rk, root.call_bb)
             if root.call_bb == self.poll_fn_bb:
                 return ("select_out",)
+            if root.call_bb in self.all_selects:
+                return ("select_out", root.call_bb)
             return None
         if t[0] == "field" and t[1] == 0 and t[2][0] == "downcast":
             inner = self.classify(t[2][2])
-            if inner == ("select_out",):
+            if inner and inner[0] == "select_out":
                 name = t[2][1]
+                branches = self.sel_branches if len(inner) == 1 else (self.all_selects[inner[1]]["branches"] or [])
                 if name.startswith("_") and name[1:].isdigit():
                     i = int(name[1:])
-                    if i < len(self.sel_branches):
-                        br = self.sel_branches[i]
+                    if i < len(branches):
+                        br = branches[i]
                         if br["kind"] in ("on_start", "on_run", "on_stop", "handle_message"):
                             return ("hook", br["kind"], br["call_bb"])
                         if br["kind"] and br["kind"].startswith("recv_"):
@@ -351,6 +371,40 @@ class Lifecycle:
                 return ("other", (), bb)
             return extra
 
+        def on_call(bb, t, store, flags, counters, extra):
+            """`return helper(actor, e, killed)`: see through pure constructor helpers."""
+            if t["dest"]["l"] != 0 or t["dest"]["p"]:
+                return extra
+            from prov import ctor_summary, substitute_params
+            fn = t.get("fn") or {}
+            d = (fn.get("resolved") or {}).get("def") or fn.get("def")
+            sm = ctor_summary(self.f, d, adts=(ret_adt,)) if d else None
+            if sm is None:
+                return ("other", (), bb)
+            r, ctr = sm
+            core = strip_wrappers(r)
+            if not (core[0] == "agg" and core[1][0] == "adt" and core[1][1] == ret_adt):
+                return ("other", (), bb)
+            arg_terms = [self.tr.norm(self.tr.operand(a)) for a in t["args"]]
+            fields = []
+            for name, ft in zip(core[1][3], core[2]):
+                ft = strip_wrappers(ft) if ft[0] in ("ref", "deref") else ft
+                v = None
+                if ft[0] == "param" and len(ft) == 2 and 0 < ft[1] <= len(t["args"]):
+                    v = ai._eval_operand(t["args"][ft[1] - 1], store)
+                    if v is None:
+                        v = ("t", arg_terms[ft[1] - 1])
+                elif ft[0] == "int":
+                    v = ("c", ft[1])
+                elif ft[0] == "const" and ft[1] in ("true", "false"):
+                    v = ("c", 1 if ft[1] == "true" else 0)
+                elif ft[0] == "agg" and ft[1][0] == "adt" and not ft[2]:
+                    v = ("e", ft[1][1], ft[1][2])
+                else:
+                    v = ("t", substitute_params(ft, arg_terms, ctr))
+                fields.append((name, v))
+            return (core[1][2], tuple(fields), bb)
+
         # per-iteration facts are forgotten when a new select! is started; outcomes of hooks
         # and the consumption of a control signal are sticky
         # T4: a select! branch whose precondition is false cannot be the one that completes
@@ -368,7 +422,7 @@ class Lifecycle:
             return ()
 
         ai = AbsInt(self.body, self.cfg, self.tr, edge_labels=lambda bb: self.labels.get(bb), events=events, edge_filter=edge_filter,
-                    on_assign=on_assign, reset_at=[self.poll_fn_bb] if self.poll_fn_bb is not None else [],
+                    on_assign=on_assign, on_call=on_call, reset_at=[self.poll_fn_bb] if self.poll_fn_bb is not None else [],
                     reset_prefixes=("sel", "mbox_", "on_run_true", "on_run_false", "on_run_ok", "ctrl_none"),
                     reset_counters=("handle_message", "on_run"))
         ai.run()
